@@ -216,3 +216,9 @@ pub fn stub_read_header(_f: &mut File) -> Result<crate::cart::Header, String> {
 
 /// Dropping the (dummy) `File` would call close(2), an FFI call Kani cannot model.
 pub fn stub_ownedfd_drop(_fd: &mut std::os::fd::OwnedFd) {}
+
+/// The file handed to `read_header`: the dummy under Kani (I/O is stubbed), the real temporary file natively.
+#[cfg(not(verif_playback))]
+pub fn open_for_read_header(_name: String) -> File { dummy_file() }
+#[cfg(verif_playback)]
+pub fn open_for_read_header(name: String) -> File { std::fs::File::open(&name).expect("temp rom") }
